@@ -71,9 +71,20 @@ func judge(s string) string {
 }
 
 // shrink: greedy byte-wise deletion to a fixed point, then canonicalisation
-// (letters -> 'a', blanks and controls -> TAB where the oracle keeps failing),
+// (letters -> TAB or 'a', blanks and controls -> TAB where the oracle keeps failing),
 // repeated until nothing changes; the fixed point is the canonical witness.
 func shrink(s string, bad func(string) bool) string {
+	// long witnesses (padding family): delete halves, quarters, … first, so the
+	// byte-wise loop below only ever sees a short string
+	for chunk := len(s) / 2; chunk >= 2; chunk /= 2 {
+		for i := 0; i+chunk <= len(s); {
+			if t := s[:i] + s[i+chunk:]; bad(t) {
+				s = t
+			} else {
+				i += chunk
+			}
+		}
+	}
 	for {
 		before := s
 		for changed := true; changed; {
@@ -90,10 +101,12 @@ func shrink(s string, bad func(string) bool) string {
 		for i := range b {
 			var cands []byte
 			switch {
+			case b[i] == 'a':
+				cands = []byte{'\t'}
 			case b[i] >= 'b' && b[i] <= 'z':
-				cands = []byte{'a'}
+				cands = []byte{'\t', 'a'}
 			case b[i] >= 'A' && b[i] <= 'Z':
-				cands = []byte{'a', b[i] + 'a' - 'A'}
+				cands = []byte{'\t', 'a', b[i] + 'a' - 'A'}
 			case b[i] <= 0x20 && b[i] != '\t':
 				cands = []byte{'\t'}
 			}
@@ -107,6 +120,13 @@ func shrink(s string, bad func(string) bool) string {
 			}
 		}
 		s = string(b)
+		// canonical shape of "disguised scheme" witnesses: everything before the
+		// first colon becomes TAB padding followed by the one-letter scheme "a"
+		if i := strings.IndexByte(s, ':'); i >= 1 {
+			if t := strings.Repeat("\t", i-1) + "a" + s[i:]; t != s && bad(t) {
+				s = t
+			}
+		}
 		if s == before {
 			return s
 		}
@@ -239,6 +259,106 @@ func mutate(v string, emit func(string)) {
 	}
 	for _, pre := range []string{"/", "//", "./", "?", "#", "x", "http:", "https://x/", "mailto:", "tel:", "a:", "1", "+", "&", ";", "%20", "&#32;", "&nbsp;"} {
 		emit(pre + v)
+	}
+}
+
+// padLengths: 0..8, then values around powers of two and typical buffer
+// sizes (a sanitiser that bounds its scan, copies into a fixed buffer or
+// switches algorithm by length changes behaviour exactly there).
+func padLengths() []int {
+	var ns []int
+	for n := 0; n <= 8; n++ {
+		ns = append(ns, n)
+	}
+	ns = append(ns, 15, 16, 17, 31, 32, 33)
+	for n := 55; n <= 70; n++ {
+		ns = append(ns, n)
+	}
+	for _, p := range []int{128, 256, 512, 1024, 4096, 65536} {
+		ns = append(ns, p-1, p, p+1)
+	}
+	return ns
+}
+
+var padSchemes = []string{"javascript", "JaVaScRiPt", "vbscript", "data", "x", "http", "HTTPS", "mailto", "tel", "ftp", "ftps"}
+
+// leading padding units: all stripped by a browser (C0 control or space).
+var padLead = []string{" ", "\x00", "\x01", "\x1f", "\t", "\n", "\r", "\x0b\x0c", " \x00\t\n\r\x01"}
+
+// embedded padding units: removed anywhere by a browser (TAB, LF, CR).
+var padEmbed = []string{"\t", "\n", "\r", "\r\n\t"}
+
+func rep(unit string, n int) string { // exactly n bytes of the repeated unit
+	return strings.Repeat(unit, n/len(unit)+1)[:n]
+}
+
+// padJobs lists the (scheme, family) pairs; padFamily yields, for one pair,
+// one string per length. Families:
+//
+//	lead/u    : u^n scheme ":" tail          (leading strippable padding)
+//	embed/u/k : scheme[:k] u^n scheme[k:] ":" tail, k in {1, mid, len}
+//	both/u    : " "^(n/2) scheme[:1] u^(n-n/2) scheme[1:] ":" tail
+//	trail     : u^n scheme ":" tail u^n       (padding on both ends)
+//	run       : scheme a^n ":" tail          (a long scheme that is NOT stripped
+//	            and not on the allow-list) and a^n scheme ":" tail
+//	nostrip   : DEL^n / NBSP^n scheme ":"    (not stripped: a relative reference)
+//
+// n runs over padLengths and additionally over the values that put the colon
+// at offset P-1, P, P+1 for every power of two P in 16..65536.
+type padJob struct {
+	scheme, fam, unit string
+	k                 int
+}
+
+func padJobs() []padJob {
+	var js []padJob
+	for _, sc := range padSchemes {
+		for _, u := range padLead {
+			js = append(js, padJob{sc, "lead", u, 0}, padJob{sc, "trail", u, 0})
+		}
+		for _, u := range padEmbed {
+			for _, k := range []int{1, (len(sc) + 1) / 2, len(sc)} {
+				js = append(js, padJob{sc, "embed", u, k})
+			}
+			js = append(js, padJob{sc, "both", u, 0})
+		}
+		js = append(js, padJob{sc, "run", "a", 0}, padJob{sc, "run", "A9+-.", 0}, padJob{sc, "nostrip", "\x7f", 0}, padJob{sc, "nostrip", "\u00a0", 0})
+	}
+	return js
+}
+
+func padFamily(j padJob, emit func(string)) {
+	sc := j.scheme
+	ns := padLengths()
+	for _, p := range []int{16, 32, 64, 128, 256, 512, 1024, 4096, 65536} {
+		for d := -1; d <= 1; d++ {
+			if n := p + d - len(sc); n > 8 {
+				ns = append(ns, n) // colon lands at offset p+d
+			}
+		}
+	}
+	sort.Ints(ns)
+	for i, n := range ns {
+		if i > 0 && n == ns[i-1] {
+			continue
+		}
+		for _, tail := range []string{"alert(1)", "//x/y?z#w"} {
+			switch j.fam {
+			case "lead":
+				emit(rep(j.unit, n) + sc + ":" + tail)
+			case "trail":
+				emit(rep(j.unit, n) + sc + ":" + tail + rep(j.unit, n))
+			case "embed":
+				emit(sc[:j.k] + rep(j.unit, n) + sc[j.k:] + ":" + tail)
+			case "both":
+				emit(rep(" ", n/2) + sc[:1] + rep(j.unit, n-n/2) + sc[1:] + ":" + tail)
+			case "run":
+				emit(sc + rep(j.unit, n) + ":" + tail)
+				emit(rep(j.unit, n) + sc + ":" + tail)
+			case "nostrip":
+				emit(rep(j.unit, n) + sc + ":" + tail)
+			}
+		}
 	}
 }
 
@@ -395,6 +515,44 @@ func inProc(c *core.Ctx, fd *found) (e2eValues []string) {
 	c.Set("xss_vectors", len(vectors))
 	c.Set("xss_vector_mutations", len(muts))
 
+	// ---- long padding family (size boundaries)
+	pj := padJobs()
+	var nPad, ntPad, padAccepted, padMax int64
+	parallel(len(pj), func(i int) {
+		var n, nt, acc, mx int64
+		padFamily(pj[i], func(s string) {
+			n++
+			check(s)
+			if string(templ.URL(s)) == s {
+				acc++
+			}
+			if nontrivial(s) {
+				nt++
+				c.NontrivialStr(s) // n=0 and coinciding lengths repeat strings: deduplicate by hash
+			}
+			mx = max(mx, int64(len(s)))
+		})
+		atomic.AddInt64(&nPad, n)
+		atomic.AddInt64(&ntPad, nt)
+		atomic.AddInt64(&padAccepted, acc)
+		for {
+			cur := atomic.LoadInt64(&padMax)
+			if mx <= cur || atomic.CompareAndSwapInt64(&padMax, cur, mx) {
+				break
+			}
+		}
+	})
+	c.Eval(int(nPad))
+	_ = ntPad
+	c.Set("long_padding_strings", nPad)
+	c.Set("long_padding_families", len(pj))
+	c.Set("long_padding_returned_unchanged", padAccepted)
+	c.Set("long_padding_max_input_bytes", padMax)
+	if nPad > 0 {
+		ex := rep(" ", 64) + "javascript:alert(1)"
+		c.Sample(map[string]any{"in": "64 spaces + javascript:alert(1)", "templ.URL": string(templ.URL(ex)), "browser_scheme": "javascript"})
+	}
+
 	// ---- seeded random strings (tokens, characters and raw bytes mixed)
 	nRand := c.Pick(200000, 3000000)
 	rnd := c.Rand("random")
@@ -444,6 +602,9 @@ func inProc(c *core.Ctx, fd *found) (e2eValues []string) {
 	}
 	nr := c.Pick(3000, 60000)
 	e2eValues = append(e2eValues, rs[:nr]...)
+	for _, n := range []int{64, 65, 1024, 4097} { // a few long padded values also go through the compiled templates
+		e2eValues = append(e2eValues, rep(" ", n)+"javascript:alert(1)", "java"+rep("\t", n)+"script:alert(1)", rep("\x00\n", n)+"http://x/\"y", "x"+rep("a", n)+":z")
+	}
 	if c.Quick() { // thin out the mutation list deterministically
 		var thin []string
 		for i, v := range e2eValues {
@@ -857,7 +1018,7 @@ func typing(c *core.Ctx) {
 
 // Run is the C04 check.
 func Run(c *core.Ctx) {
-	c.Rule = "in-proc: out=templ.URL(s) must be the failure URL, or equal s with whaturl.Scheme(s) in {none,http,https,mailto,tel,ftp,ftps}; inputs = exhaustive token sequences + exhaustive character strings (bounds in exhaustive_subspace) + XSS vectors x mutations + seeded random; end-to-end: the same values rendered by compiled <a href={templ.URL(s)}>/<form action=…> (plain and conditional attributes), HTML5-tokenised, decoded value == templ.URL(s), safe scheme, skeleton intact; typing: compile probes. non-trivial = the string has a ':' not preceded by '/' (e2e also: contains an HTML metacharacter); typing probes rejected with a SafeURL error count as one each; distinct by string"
+	c.Rule = "in-proc: out=templ.URL(s) must be the failure URL, or equal s with whaturl.Scheme(s) in {none,http,https,mailto,tel,ftp,ftps}; inputs = exhaustive token sequences + exhaustive character strings (bounds in exhaustive_subspace) + XSS vectors x mutations + long-padding family (scheme spellings x strippable/removable/non-stripped padding kinds x lengths 0..8 and around 16,32,55..70,128,…,65536, colon placed at every power-of-two offset +-1) + seeded random; end-to-end: the same values rendered by compiled <a href={templ.URL(s)}>/<form action=…> (plain and conditional attributes), HTML5-tokenised, decoded value == templ.URL(s), safe scheme, skeleton intact; typing: compile probes. non-trivial = the string has a ':' not preceded by '/' (e2e also: contains an HTML metacharacter); typing probes rejected with a SafeURL error count as one each; distinct by string"
 	c.Assume("a browser extracts the scheme as the WHATWG URL basic parser does (oracle/whaturl): strip leading/trailing C0-or-space, drop TAB/LF/CR, scheme-start/scheme states; a string without scheme is a relative reference and inherits the page's scheme")
 	c.Assume("templ.URL returning the failure URL is always acceptable (over-blocking is not a violation of the statement); over-blocking is only counted")
 	c.Assume("golang.org/x/net/html tokenises and decodes attribute values as a browser does")
